@@ -122,6 +122,11 @@ func report(prop, tier string, seed int, verifDir string, results []*FuncResult,
 		for _, a := range r.Assumptions {
 			assume[a] = true
 		}
+		if r.vc != nil {
+			for a := range r.vc.usedAssumptions {
+				assume[a] = true
+			}
+		}
 		all = append(all, r.Obls...)
 		if r.Unsupported != "" {
 			outside = append(outside, r.Name+": "+r.Unsupported)
